@@ -78,3 +78,35 @@ class RepoAnalyzer(Analyzer):
         ok = bool(self.capacity_ok)
         unit.oblige("unsafe", "push_unchecked", n[4], chain, ok,
                     "A256: no valid position has more than 256 semilegal moves; capacity rule U6")
+
+
+def total_roots_rule(ctx, facts, rid, roots, desc, kinds=("assert", "panic", "unsafe", "model")):
+    """Each listed entry point (roots crate wrapper -> API name) reaches no assertion, panic or unsafe precondition."""
+    r = ctx.rule(rid, desc)
+    an = RepoAnalyzer(facts, kinds=kinds, capacity_ok=True)
+    for root, api in roots:
+        if root not in facts.fns:
+            r.anchor_missing("root " + root)
+            continue
+        try:
+            u = an.analyse(root)
+        except RuntimeError as ex:
+            r.fail("BUDGET " + root, "analysis budget exceeded for %s (%s)" % (api, ex))
+            continue
+        opens = [o for o in u.open.values() if o.kind in an.kinds]
+        seen = set()
+        for o in opens:
+            k = "%s %s in %s [%s]" % (o.kind, o.what, o.site.fn.def_path, root)
+            if k in seen:
+                continue
+            seen.add(k)
+            chain = " > ".join(c[1].split("::")[-1] for c in o.chain) or "-"
+            r.fail(k, "%s: %s `%s` can be reached (%s); call path: %s" % (api, o.kind, o.what, o.detail[:200], chain),
+                   ctx.site(o.site.fn, o.site.bi))
+        if not opens:
+            reach = an.reachable([root])
+            n = sum(len(an.summary[f].done) for f in reach if f in an.summary)
+            r.ok("%s (%s)" % (api, root), {"reachable_functions": len(reach), "obligations_discharged": n})
+    for k, n in sorted(an.assumed_used.items()):
+        ctx.assume("%s %s in %s: %s" % (k[0], k[1], k[2], ASSUMED[k][1]))
+    return an
